@@ -26,6 +26,7 @@ type heapCtx struct {
 	muts  []string // defined mutator functions taking an array
 	hmuts []string // mutators taking a hash
 	clos  []string // closures over an array: (k x) writes and reads
+	ext   bool     // the sem family's own programs: the empty hash literal {}, == on hashes
 }
 
 func (h *heapCtx) key() int { h.k++; return 300 + h.k }
@@ -82,6 +83,11 @@ func (h *heapCtx) stmt() []node {
 	strs := h.ofKind("str")
 	outers := h.ofKind("outer")
 	choice := r.intn(26)
+	if h.ext && r.intn(12) == 0 {
+		if out := h.extStmt(hashes); out != nil {
+			return out
+		}
+	}
 	switch {
 	case choice == 0 || len(arrs) == 0: // a new array
 		n := r.intn(5)
@@ -174,6 +180,9 @@ func (h *heapCtx) stmt() []node {
 		}
 		name := h.fresh("h")
 		h.vars = append(h.vars, heapVar{name: name, kind: "hash"})
+		if h.ext && n == 0 {
+			return []node{nDef(name, nEHash())}
+		}
 		return []node{nDef(name, nApp("hash", args...))}
 	case choice == 15 || choice == 16:
 		s := h.vars[pick(r, hashes)]
@@ -308,8 +317,49 @@ func (h *heapCtx) stmt() []node {
 
 // genHeapProgram: statements at top level, or the same statements as the body
 // of a function that is then called (locals instead of globals).
-func genHeapProgram(r *rng) []node {
-	h := &heapCtx{r: r}
+func genHeapProgram(r *rng) []node { return genHeapProgramX(r, false) }
+
+// extStmt: the empty hash literal {} evaluated more than once (a new hash each time, like [] and
+// (hash)), and == between hashes (equal when they hold the same keys with equal values)
+func (h *heapCtx) extStmt(hashes []int) []node {
+	r := h.r
+	switch r.intn(3) {
+	case 0: // {} as the result of a function called twice, or in a loop
+		mk := h.fresh("mk")
+		a, b := h.fresh("h"), h.fresh("h")
+		h.vars = append(h.vars, heapVar{name: a, kind: "hash"}, heapVar{name: b, kind: "hash"})
+		var body node = nEHash()
+		switch r.intn(4) {
+		case 0:
+			body = nLet("let", []bind{{"t", nEHash()}}, nSym("t"))
+		case 1:
+			body = nCond([]clause{{nBool(true), nEHash()}}, nNil())
+		case 2:
+			body = nBegin(nInt(1), nEHash())
+		}
+		return []node{nDefn(mk, nil, "", body), nDef(a, nCall(nSym(mk))), nApp("hset", nSym(a), h.hkey(false), h.small()), nDef(b, nCall(nSym(mk))),
+			nApp("tr", nInt(h.key()), nSym(a)), nApp("tr", nInt(h.key()), nSym(b))}
+	case 1:
+		rows := h.fresh("o")
+		h.vars = append(h.vars, heapVar{name: rows, kind: "outer", n: 3})
+		return []node{nDef(rows, nArr()),
+			nFor("", nDef("i", nInt(0)), nApp("<", nSym("i"), nInt(3)), nSet("i", nApp("+", nSym("i"), nInt(1))),
+				nLet("let", []bind{{"t", nEHash()}}, nApp("hset", nSym("t"), nSym("i"), nSym("i")), nSet(rows, nApp("append", nSym(rows), nSym("t"))))),
+			nApp("tr", nInt(h.key()), nSym(rows))}
+	}
+	if len(hashes) < 1 {
+		return nil
+	}
+	a, b := h.vars[pick(r, hashes)], h.vars[pick(r, hashes)]
+	var rhs node = nSym(b.name)
+	if r.intn(3) == 0 {
+		rhs = nApp("hash", h.hkey(true), h.small())
+	}
+	return []node{nApp("tr", nInt(h.key()), nApp(pick(r, []string{"==", "!="}), nSym(a.name), rhs))}
+}
+
+func genHeapProgramX(r *rng, ext bool) []node {
+	h := &heapCtx{r: r, ext: ext}
 	n := 6 + r.intn(8)
 	var body []node
 	for i := 0; i < n; i++ {
